@@ -142,6 +142,12 @@ def gen_case(rng, tier):
             st['text'] = (quote + text + quote) if kind == 'emb' else f'{kind} {quote}{text}{quote}'
             stmts.append(st)
             cur += 1   # not exact (only used to aim .zerountil)
+            if kind != 'emb' and rng.random() < 0.12:
+                # another statement on the same line after the closing quote: it must not be swallowed
+                st['join_next'] = True
+                stmts.append(rng.choice([{'k': 'instr', 'mn': 'nop', 'args': []}, {'k': 'instr', 'mn': 'op1', 'args': [[('num', 7), 1]]},
+                                         {'k': 'data', 'w': 1, 'vals': [('num', 0x5A)]}]))
+                flags.add('statement-after-string')
         elif r < 0.87:
             c = rng.choice([0, 0, 1, 2, 5, 17])
             v = rng.choice([0, 255, 256, 511, -1, -256, rng.randint(0, 255)])
